@@ -159,7 +159,7 @@ func TestProp(t *testing.T) {
 	env := vh.GetEnv()
 	rep := vh.NewReport("C01", "exploration")
 	rep.Rule("cases enumerate (stride over) the product cookie-class x gate-vector(slug,host,lifetime,refresh-due,validation-due,email) x endpoint x path-class x authenticator-answer x answer-site x method x XHR per generated configuration (2-5 upstreams with random rule sets and skip-auth regexes); concrete e-mails, tokens and paths are random per case. distinct = the tuple of dimensions relevant to the case, counted only when the proxy answered the request")
-	rep.Assume("the fake authenticator answers exactly as scripted; 429/503 answers are excluded here (C05)")
+	rep.Assume("the fake authenticator answers exactly as scripted; 429/503 answers are excluded from the decision table (C05 decides when grace may begin and end); the c01-due block judges only sessions whose grace period is already used up")
 	rep.Assume("group membership for requests with no check due is 'as of the last check' (the harness only mints cookies the proxy itself could have issued w.r.t. groups)")
 
 	nConfigs := env.Pick(3, 24)
@@ -179,6 +179,7 @@ func TestProp(t *testing.T) {
 	if only < 0 {
 		runCrossUpstream(rep, env)
 		runPrimedPairs(rep, env)
+		runDueCheckNotPassed(rep, env)
 	}
 	rep.Extra("wall_workload_s", time.Since(start).Seconds())
 	rep.Floor("backend_hits_authorised", 20)
@@ -746,4 +747,90 @@ func runPrimedPairs(rep *vh.Report, env vh.Env) {
 	})
 	rep.Floor("primed_pairs_probed", 100)
 	rep.Floor("primed_pairs_priming_request_forwarded", 100)
+}
+
+// runDueCheckNotPassed: a session whose refresh or revalidation is due, whose outage grace is ALREADY
+// used up (grace start older than the grace TTL, as a cookie can carry it), and whose due check cannot
+// be completed because the authenticator is unavailable at one of its steps (the token is refreshed
+// but the group lookup answers 503/429; the refresh itself answers 503; validation answers 503): the
+// check that was due has not been passed, so the upstream must not be reached. Sessions that have
+// never been in grace are not judged here (whether grace may begin is C05's subject): counted.
+// (Added after seeded change C01h - the grace start reset before the group lookup of a refresh, so a
+// session is refreshed for ever without its group re-check - was missed: 429/503 answers had been
+// left to C05 entirely.)
+func runDueCheckNotPassed(rep *vh.Report, env vh.Env) {
+	ps, err := sut.NewProxyStack(sut.ProxyOpts{Upstreams: []sut.UpstreamSpec{
+		{Service: "grp", From: "grp.sso.test", AllowedGroups: []string{"staff"}},
+		{Service: "dom", From: "dom.sso.test", AllowedEmailDomains: []string{"corp.test"}},
+	}})
+	if err != nil {
+		rep.Inconclusive("due-check stack did not start: " + err.Error())
+		return
+	}
+	defer ps.Close()
+	n := env.Pick(240, 4000)
+	vh.ForEach(n, 0, -1, func(i int) {
+		r := vh.CaseRNG(env.Seed, "c01-due", i)
+		host := []string{"grp.sso.test", "dom.sso.test"}[r.Intn(2)]
+		uid := sut.NewID()
+		email := "user" + uid + "@corp.test"
+		s := ps.Session(host, email, []string{"staff"})
+		at, rt, nt := "dat-"+uid, "drt-"+uid, "dnt-"+uid
+		s.AccessToken, s.RefreshToken = at, rt
+		now := time.Now()
+		graceUsedUp := r.Intn(4) != 0
+		if graceUsedUp {
+			s.GracePeriodStart = now.Add(-sut.GraceTTL - time.Duration(60+r.Intn(7200))*time.Second)
+		}
+		unavailable := []int{503, 429}[r.Intn(2)]
+		step := []string{"refresh-then-profile", "refresh", "validate", "validate-then-profile"}[r.Intn(4)]
+		if host == "dom.sso.test" && (step == "refresh-then-profile" || step == "validate-then-profile") {
+			step = strings.Split(step, "-")[0] // no group lookup on an upstream without a group rule
+		}
+		s.ValidDeadline = now.Add(-time.Duration(60+r.Intn(600)) * time.Second)
+		switch step {
+		case "refresh-then-profile":
+			s.RefreshDeadline = now.Add(-time.Duration(60+r.Intn(600)) * time.Second)
+			ps.Auth.Set("refresh", rt, sut.RefreshOK(nt, 3600))
+			ps.Auth.Set("profile", nt, sut.Status(unavailable))
+		case "refresh":
+			s.RefreshDeadline = now.Add(-time.Duration(60+r.Intn(600)) * time.Second)
+			ps.Auth.Set("refresh", rt, sut.Status(unavailable))
+		case "validate":
+			ps.Auth.Set("validate", at, sut.Status(unavailable))
+		case "validate-then-profile":
+			ps.Auth.Set("validate", at, sut.ValidateOK())
+			ps.Auth.Set("profile", at, sut.Status(unavailable))
+		}
+		defer func() {
+			ps.Auth.Unset("refresh", rt)
+			ps.Auth.Unset("validate", at)
+			ps.Auth.Unset("profile", at)
+			ps.Auth.Unset("profile", nt)
+		}()
+		rs := ps.Client.Do(sut.Req{Host: host, Target: "/due/" + uid, Cookies: []string{ps.CookieName + "=" + ps.Seal(s)}})
+		rep.Eval()
+		if rs.Err != nil {
+			rep.Count("client_errors", 1)
+			return
+		}
+		served := len(ps.Hits(rs.ID)) > 0 || strings.Contains(string(rs.Body), "UPSTREAM-CONTENT-")
+		if !graceUsedUp {
+			rep.Count(fmt.Sprintf("due_check_unavailable_never_in_grace_served_%v", served), 1)
+			return
+		}
+		rep.Distinct(fmt.Sprintf("due|%s|%s|%d", host, step, unavailable))
+		if served {
+			rep.Violate("c01-due", i, "backend-reached-unauthorised failing=due-check-not-passed at="+step+" grace=used-up",
+				fmt.Sprintf("the session's %s was due, the authenticator answered %d and the session's grace period had been used up, yet the upstream was reached", step, unavailable),
+				map[string]interface{}{"index": i, "host": host, "step": step, "unavailable_status": unavailable, "status": rs.Status})
+			return
+		}
+		rep.Count("due_check_not_passed_refused", 1)
+		rep.Count("due_check_not_passed_refused_at_"+step, 1)
+	})
+	rep.Floor("due_check_not_passed_refused", 100)
+	for _, st := range []string{"refresh-then-profile", "refresh", "validate", "validate-then-profile"} {
+		rep.Floor("due_check_not_passed_refused_at_"+st, 5)
+	}
 }
